@@ -38,15 +38,18 @@ type callReq struct {
 type callGrant struct {
 	fault  int  // 0 none 1 before 2 after
 	hfault bool // the hook's nested GetNext fails
+	// the fetcher's GetById: the dispatch context is cancelled right after the fetch succeeded, i.e. before the worker
+	// looks at its context for the last time ahead of the work function
+	cancelAfter func()
 }
 
 type sproxy struct {
 	coreFaults bool
-	nfault int
-	inner  scheduler.Repository
-	faulty *faultyRepo
-	calls  chan *callReq
-	fireCh chan time.Time // the scheduler's view of the timer channel: the harness forwards fires explicitly
+	nfault     int
+	inner      scheduler.Repository
+	faulty     *faultyRepo
+	calls      chan *callReq
+	fireCh     chan time.Time // the scheduler's view of the timer channel: the harness forwards fires explicitly
 }
 
 func (p *sproxy) gate(kind, term string) (*callReq, callGrant) {
@@ -114,6 +117,9 @@ func (p *sproxy) GetById(ctx context.Context, id string) (def.Task, error) {
 		return def.Task{}, p.faultErr()
 	}
 	t, err := p.inner.GetById(ctx, id)
+	if err == nil && g.cancelAfter != nil {
+		g.cancelAfter()
+	}
 	if err != nil {
 		r.done <- resTerm(err)
 	} else {
@@ -243,7 +249,11 @@ type sysRun struct {
 	inRetry       bool
 
 	// exhaustive fault placement: the k-th faultable call of the scheduler (before quiescence) gets the planned fault
-	userHookFaults bool // exploration only (-user-hook-faults): the hook's nested GetNext may fail during user mutations too
+	cancelInFetch  bool            // -cancel-in-fetch (predicate-only suite of C06)
+	lastKind       string          // kind of the scheduler's previous call
+	lastOk         bool            // ... and whether it returned without error
+	fetchCancelled map[string]bool // ids whose dispatch context was cancelled between fetch and work start
+	userHookFaults bool            // exploration only (-user-hook-faults): the hook's nested GetNext may fail during user mutations too
 	planned        bool
 	plan           map[int]int // call number -> 1 error without effect, 2 error after effect, 3 failure of the hook's nested GetNext
 	callNo         int
@@ -738,8 +748,17 @@ func (s *sysRun) progress() {
 			}
 		}
 		g := s.chooseFault(req.kind)
+		if s.cancelInFetch && req.kind == "getbyid" && s.lastKind == "markdisp" && s.lastOk && g.fault == 0 && s.r.Intn(4) == 0 {
+			if s.fetchCancelled == nil {
+				s.fetchCancelled = map[string]bool{}
+			}
+			s.fetchCancelled[s.lastCallId] = true
+			g.cancelAfter = s.curCancel
+			s.stats["driver:cancel-between-fetch-and-work"]++
+		}
 		req.grant <- g
 		ret := <-req.done
+		s.lastKind, s.lastOk = req.kind, !strings.Contains(ret, "RErr")
 		if req.kind == "getbyid" {
 			s.lastGetState = ""
 			if m := taskStateRe.FindStringSubmatch(ret); m != nil {
@@ -781,7 +800,15 @@ func (s *sysRun) progress() {
 					s.workOf[id] = t.WorkId
 				}
 			}
-			if s.workOf[id] == "nope" {
+			if s.fetchCancelled[id] && s.workOf[id] != "nope" {
+				// the worker found its context cancelled before calling the work function: the run ends cancelled without
+				// ever starting (no model label for this: predicate-only suite)
+				delete(s.fetchCancelled, id)
+				s.waitReserved(s.outstanding() - 1)
+				delete(s.accepted, id)
+				s.queued++
+				s.log("LWorkEnd " + cq.Str(id) + " OCanceled")
+			} else if s.workOf[id] == "nope" {
 				s.waitReserved(s.outstanding() - 1)
 				delete(s.accepted, id)
 				s.queued++
@@ -1051,6 +1078,7 @@ func sysMain(args []string) {
 	out := fs.String("out", "", "output .v")
 	statsOut := fs.String("stats", "", "stats json")
 	coreFaults := fs.Bool("core-faults", false, "with -faults: a failing MarkAsDispatched is the CORE repository's failure (before or after taking effect), seen by the observable wrapper as well; there is no model for this placement: only the trace predicates are evaluated")
+	cancelInFetch := fs.Bool("cancel-in-fetch", false, "the dispatch context is sometimes cancelled right after the fetcher's GetById succeeded (the run then ends cancelled without starting); no model label exists for that: only the trace predicates are evaluated")
 	userHookFaults := fs.Bool("user-hook-faults", false, "exploration (not used by registered suites): with -faults, the hook's nested GetNext may also fail during the user's own mutations; see DESIGN.md §6, observation O3")
 	exhaustive := fs.Int("exhaustive", 0, "number of base scenarios; every placement of one fault (error-without-effect, error-after-effect, hook GetNext failure) over the scheduler's calls of each is run (ignores -n)")
 	pairs := fs.Bool("pairs", false, "with -exhaustive: also every placement of two faults")
@@ -1120,6 +1148,7 @@ func sysMain(args []string) {
 			s = newSysRun(r, stats, *faults)
 			s.userHookFaults = *userHookFaults
 			s.proxy.coreFaults = *coreFaults
+			s.cancelInFetch = *cancelInFetch
 		}
 		if s.failed == "" && !s.ended {
 			s.run(*length)
